@@ -131,26 +131,36 @@ static std::string stack_of(const Rep::Mop& m, std::string* top_tins) {
 }
 
 // ---------------------------------------------------------------- configurations
-struct Cfg { int k, stride, offset, barrier, rounds; };
+// desc = 0: ordinary workloads, thread t runs the whole list starting at offset + t*stride.
+// desc = 1: the DESCENDANT workloads (objects derived by the main thread from common ancestors, harness/C18_descend.cpp), one per
+//           thread, all object sets at once (k = 6); desc = 2, 3, 4: threads A and B of one object set (k = 2).  The objects are
+//           rebuilt by the main thread before every round.
+struct Cfg { int k, stride, offset, barrier, rounds, desc; };
 static std::vector<Cfg> configs(bool thorough) {
     std::vector<Cfg> v;
     static const int ks[] = {2, 3, 4, 8, 16};
     static const int strides[] = {0, 1, 5};
     for (int a = 0; a < 5; ++a)
         for (int b = 0; b < 3; ++b) {
-            Cfg c; c.k = ks[a]; c.stride = strides[b]; c.offset = 0; c.barrier = 1; c.rounds = thorough ? 4 : 2;
+            Cfg c; c.k = ks[a]; c.stride = strides[b]; c.offset = 0; c.barrier = 1; c.rounds = thorough ? 4 : 2; c.desc = 0;
             v.push_back(c);
             if (thorough) {
                 Cfg d = c; d.barrier = 0; d.offset = 3; v.push_back(d);
                 Cfg e = c; e.offset = 7; v.push_back(e);
             }
         }
-    if (!thorough) { Cfg c; c.k = 16; c.stride = 1; c.offset = 3; c.barrier = 0; c.rounds = 2; v.push_back(c); }
+    if (!thorough) { Cfg c; c.k = 16; c.stride = 1; c.offset = 3; c.barrier = 0; c.rounds = 2; c.desc = 0; v.push_back(c); }
+    int nsets = c18::kNumDescendant / 2;
+    { Cfg c; c.k = c18::kNumDescendant; c.stride = c.offset = 0; c.barrier = 0; c.rounds = thorough ? 12 : 4; c.desc = 1; v.push_back(c); }
+    for (int set = 0; set < nsets; ++set) {
+        Cfg c; c.k = 2; c.stride = c.offset = 0; c.barrier = 0; c.rounds = thorough ? 12 : 4; c.desc = 2 + set;
+        if (thorough || set == nsets - 1) v.push_back(c);       // quick: the set whose ancestor is destroyed by thread A
+    }
     return v;
 }
 static std::string cfg_str(const Cfg& c, int scale) {
     return "stage=3 scale=" + str(scale) + " k=" + str(c.k) + " stride=" + str(c.stride) + " offset=" + str(c.offset) + " barrier=" + str(c.barrier) +
-           " rounds=" + str(c.rounds);
+           " rounds=" + str(c.rounds) + " desc=" + str(c.desc);
 }
 
 static int g_scale = 0;
@@ -165,6 +175,11 @@ static void* worker(void* p) {
     TArg* a = static_cast<TArg*>(p);
     int n = c18::kNumLibtins;
     if (!a->c->barrier) while (!__atomic_load_n(a->go, __ATOMIC_ACQUIRE)) sched_yield();
+    if (a->c->desc) {
+        int w = n + (a->c->desc == 1 ? a->t : (a->c->desc - 2) * 2 + a->t);
+        a->digest[0] = run_workload(w);
+        return 0;
+    }
     for (int i = 0; i < n; ++i) {
         if (a->c->barrier) pthread_barrier_wait(a->bar);
         int w = (a->c->offset + a->t * a->c->stride + i) % n;
@@ -179,7 +194,9 @@ static int run_config(const Cfg& c, bool report) {
     int findings = 0;
     std::string kase = cfg_str(c, g_scale);
     std::vector<std::vector<uint64_t> > got;     // per (round, thread) digests
+    if (c.desc) n = 1;
     for (int round = 0; round < c.rounds; ++round) {
+        if (c.desc) c18::setup_descendants();    // main thread, no other thread alive: happens-before every access of the round
         pthread_barrier_t bar;
         pthread_barrier_init(&bar, 0, (unsigned)c.k);
         volatile int go = 0;
@@ -197,12 +214,16 @@ static int run_config(const Cfg& c, bool report) {
     }
     // sequential digests AFTER the concurrent phase (computing them first would warm every lazily initialised table and
     // order it before the threads by thread creation)
-    std::vector<uint64_t> seq((size_t)n);
-    for (int w = 0; w < n; ++w) seq[w] = run_workload(w);
+    std::vector<uint64_t> seq((size_t)(c.desc ? c18::kNumLibtins + c18::kNumDescendant : n));
+    if (c.desc) {
+        c18::setup_descendants();
+        for (int t = 0; t < c.k; ++t) { int w = c18::kNumLibtins + (c.desc == 1 ? t : (c.desc - 2) * 2 + t); seq[w] = run_workload(w); }
+    } else
+        for (int w = 0; w < n; ++w) seq[w] = run_workload(w);
     for (size_t r = 0; r < got.size(); ++r) {
         int t = (int)(r % (size_t)c.k);
         for (int i = 0; i < n; ++i) {
-            int w = (c.offset + t * c.stride + i) % n;
+            int w = c.desc ? c18::kNumLibtins + (c.desc == 1 ? t : (c.desc - 2) * 2 + t) : (c.offset + t * c.stride + i) % n;
             R.count("tsan_digests_compared");
             if (got[r][i] != seq[w]) {
                 findings++;
@@ -283,7 +304,7 @@ static int replay(const std::string& kase) {
     if (kv["stage"] != "3") { printf("this binary replays stage=3 cases only\n"); return 0; }
     Cfg c;
     c.k = atoi(kv["k"].c_str()); c.stride = atoi(kv["stride"].c_str()); c.offset = atoi(kv["offset"].c_str());
-    c.barrier = atoi(kv["barrier"].c_str()); c.rounds = atoi(kv["rounds"].c_str());
+    c.barrier = atoi(kv["barrier"].c_str()); c.rounds = atoi(kv["rounds"].c_str()); c.desc = atoi(kv["desc"].c_str());
     g_scale = atoi(kv["scale"].c_str());
     if (c.k < 2 || c.k > 16 || c.rounds < 1) return 0;
     return run_config(c, false) ? 1 : 0;
